@@ -308,7 +308,7 @@ func (op *Operand) build(m *model.ND, layout string, rng *rand.Rand) error {
 		op.D, op.Root = d, d
 		op.identityOff()
 	case LF:
-		if rank < 2 {
+		if rank < 1 { // (a vector constructed column-major has the same storage as a row-major one, but carries the flag)
 			return degrade()
 		}
 		b := model.MakeSlice(t, model.ColMajorSeq(m))
@@ -317,7 +317,7 @@ func (op *Operand) build(m *model.ND, layout string, rng *rand.Rand) error {
 		op.Off = make([]int, len(m.V))
 		model.Each(m.Shape, func(c []int, r int) { op.Off[r] = model.RankCol(m.Shape, c) })
 	case LFconv:
-		if rank < 2 {
+		if rank < 1 {
 			return degrade()
 		}
 		b := model.MakeSlice(t, m.V)
@@ -801,9 +801,21 @@ type Meta struct {
 	Masked   bool
 	Mask     []bool
 	Info     tensor.VerifInfo
+	// Broken is set when the tensor could not even be inspected (an operation released or zeroed a tensor that was not
+	// its to release): the library's own accessors panicked on it
+	Broken string
 }
 
-func MetaOf(d *tensor.Dense) Meta {
+func MetaOf(d *tensor.Dense) (m Meta) {
+	defer func() {
+		if r := recover(); r != nil {
+			m = Meta{Broken: fmt.Sprint("tensor cannot be inspected: ", r)}
+		}
+	}()
+	return metaOf(d)
+}
+
+func metaOf(d *tensor.Dense) Meta {
 	m := Meta{Shape: model.CopyInts([]int(d.Shape())), Strides: model.CopyInts(d.Strides()), Order: d.DataOrder(), IsView: d.IsView(),
 		IsMat: d.IsMaterializable(), Size: d.Size(), DataSize: d.DataSize(), Masked: d.IsMasked(), Info: tensor.VerifIntrospect(d)}
 	if d.Mask() != nil {
@@ -831,6 +843,8 @@ func stridesEq(shape, a, b []int) bool {
 
 func (a Meta) Diff(b Meta) string {
 	switch {
+	case a.Broken != b.Broken:
+		return a.Broken + " -> " + b.Broken
 	case !ShapeEq(a.Shape, b.Shape):
 		return fmt.Sprintf("shape %v -> %v", a.Shape, b.Shape)
 	case !stridesEq(a.Shape, a.Strides, b.Strides):
